@@ -365,9 +365,12 @@ class Parser:
 
         # Check if we're done with this range, or if there's a step to handle
         if self._tokens.at_end() or isinstance(self._tokens.lookahead(0), CommaToken):
-            return IntRange(
-                start=int(start_sign + start.value), end=int(end_sign + end.value), step=1
-            )
+            try:
+                return IntRange(
+                    start=int(start_sign + start.value), end=int(end_sign + end.value), step=1
+                )
+            except ValueError as error:
+                raise ExpressionError("Failed to create Range") from error
 
         # Not done, now expecting a colon to indicate the step
         if self._tokens.at_end():
